@@ -87,7 +87,7 @@ class PGSQLBuilder(SQLBuilder):
             if isinstance(value, int):
                 result.append(str(value))
             elif isinstance(value, str):
-                result.append(value if is_ident(value)
+                result.append(value if is_ident(value) and value.upper() != 'NULL'  # unquoted NULL is a NULL element
                               else '"%s"' % value.replace('\\', '\\\\').replace('"', '\\"'))
             else: assert False, value
         return '{%s}' % ','.join(result)
